@@ -223,7 +223,14 @@ def dateparse(val: str, t: type[DateTimeT]) -> DateTimeT:
     """
     # A leading sign negates the whole duration.
     if val.startswith("-P"):
-        return -dateparse(val[1:], t)  # type: ignore[operator,return-value]
+        parsed = dateparse(val[1:], t)
+        # Negate the exact microsecond count: negating the parsed `pendulum.Duration`
+        #   itself goes through floats and drops microseconds on long spans.
+        micros = datetime.timedelta.__floordiv__(
+            parsed,  # type: ignore[arg-type]
+            datetime.timedelta(microseconds=1),
+        )
+        return datetime.timedelta(microseconds=-micros)  # type: ignore[return-value]
     # The standard library keeps the UTC offset of a time-only string.
     if issubclass(t, datetime.time):
         with contextlib.suppress(ValueError):
